@@ -20,7 +20,8 @@ d = tempfile.mkdtemp(prefix="seedchk_", dir="/root")
 dst = os.path.join(d, "repo")
 try:
     subprocess.check_call(["rsync", "-a", "--exclude", ".git", "/repo/", dst + "/"])
-    pkg = "./pub" if "pub/" in open(os.path.join(sdir, "patch.diff")).read() else "./..."
+    pd = open(os.path.join(sdir, "patch.diff")).read()
+    pkg = "./pub" if "a/pub/" in pd else "./streams/... ./astool/..."
     rc, base = sh("go test -vet=off -count=1 %s 2>&1" % pkg, dst)
     base_fail = failing(base)
     rc, out = sh("patch -p1 -s < %s" % os.path.join(sdir, "patch.diff"), dst)
